@@ -1101,6 +1101,10 @@ pub fn run(tier: Tier) -> i32 {
     if wp_available {
         jobs.push(("wp-canary", vec![], 1, 0));
     }
+    // When the subject does write into the shared objects, every wp configuration runs to its cap and the wall-clock
+    // budget of the check ends before the job list does. The few configurations built for state inside the handles (warm
+    // and section scripts) therefore come first, then the canary, then the 256 pairs.
+    jobs.sort_by_key(|(mode, sc, _, _)| if sc.iter().any(|&o| o >= SECTION_OP) { 0 } else if *mode == "wp-canary" { 1 } else { 2 });
     let nconf = jobs.len();
     let sub = par_run(&jobs, &budget, |(mode, scripts, steps, warm), acc, _| {
         match run_config_w(mode, scripts, *steps, *warm) {
